@@ -74,7 +74,41 @@ def _injected(rng, cls):
     return None
 
 
+_B = ["@unit", 2]
+_G = ["@sum", [[_B], []]]
+_BV = ["@bool", True]
+_GV = ["@vsum", 0, _G, [["@bool", True]]]
+
+
+def _lookalike_scripts():
+    """Rows of equal length that differ by a look-alike pair only — Bool (a unit sum of 2) against a general sum with two
+    variants — in both orders, at the three places where the builders compare rows with `!=` (conditional cases, declared
+    function outputs, the exit type of a CFG).  Seeded change C13-13 (asymmetric `Sum.__eq__`) is accepted in one order
+    per builder only."""
+    out = []
+    for first, second in ((_BV, _GV), (_GV, _BV)):
+        ft, st = (_B, _G) if first is _BV else (_G, _B)
+        out.append(("case_outputs_differ", [
+            ["Conditional", "c", ["@usum", 2], []],
+            ["add_case", "c", "k0", 0], ["load", "k0", "v0", ["val", first, None]], ["set_outputs", "k0", [["out", "v0", 0]]],
+            ["add_case", "c", "k1", 1], ["load", "k1", "v1", ["val", second, None]], ["set_outputs", "k1", [["out", "v1", 0]]],
+        ]))
+        out.append(("declared_mismatch", [
+            ["Function", "f", "main", [], []], ["declare_outputs", "f", [ft]],
+            ["load", "f", "v", ["val", second, None]], ["set_outputs", "f", [["out", "v", 0]]],
+        ]))
+        out.append(("exit_mismatch", [
+            ["Cfg", "g", []], ["add_entry", "g", "e"], ["load", "e", "v", ["val", first, None]],
+            ["set_single_succ_outputs", "e", [["out", "v", 0]]], ["branch_exit", "g", ["out", ["b", "e"], 0]],
+            ["add_block", "g", "x", []], ["load", "x", "u", ["val", second, None]],
+            ["set_single_succ_outputs", "x", [["out", "u", 0]]], ["branch_exit", "g", ["out", ["b", "x"], 0]],
+        ]))
+        del st
+    return [{"prog": p, "inject": {"cls": cls, "pos": len(p) - 1, "expect": gen_prog.EXPECT[cls]}} for cls, p in out]
+
+
 def cases(rng, tier):
+    yield from _lookalike_scripts()
     n_inj, n_clean = {"quick": (1350, 450), "thorough": (36000, 12000), "search": (6000, 2000)}[tier]
     k = 0
     while k < n_inj:
